@@ -64,15 +64,19 @@ def deliverOps (lo hi : Nat) : List Op := (List.range' lo (hi - lo)).map fun i =
 def recvOps (r : Receiver.St) : List Op :=
   acceptAll r ++ readAll (readFuel r) r ++ [.rcv (.tick ackInterval), .rcv .gather]
 
-/-- **the healed round**, as an explicit operation list computed from the state -/
-def healedRound (P : Params) (s : St) : List Op :=
+/-- the round up to (not including) the SACK: accepts, T3 / gather, deliveries, accepts, reads, ack timer, receiver gather -/
+def roundOps (P : Params) (s : St) : List Op :=
   let o1 := acceptAll s.rcv ++ sendOps s.snd
   let s1 := run P s o1
   let o2 := deliverOps s.wire.length s1.wire.length
   let s2 := run P s1 o2
-  let o3 := recvOps s2.rcv
-  let s3 := run P s2 o3
-  o1 ++ o2 ++ o3 ++ [sackOp s3.rcv]
+  o1 ++ o2 ++ recvOps s2.rcv
+
+/-- the state in which the receiver's SACK reaches the sender -/
+def preSack (P : Params) (s : St) : St := run P s (roundOps P s)
+
+/-- **the healed round**, as an explicit operation list computed from the state -/
+def healedRound (P : Params) (s : St) : List Op := roundOps P s ++ [sackOp (preSack P s).rcv]
 
 /-- the state after one healed round -/
 def healed (P : Params) (s : St) : St := run P s (healedRound P s)
@@ -115,6 +119,15 @@ def StaysUp (ops : List Op) : Bool := ops.all StaysUpOp
 
 /-- the measure of the progress theorem: chunks pending + chunks in flight -/
 def outstanding (s : St) : Nat := s.snd.pending.length + s.snd.inflight.length
+
+/-- in this round the receiver's cumulative point gets ahead of the sender's cumulative ack point: the receiver HAS the
+lowest outstanding chunk when its SACK is built (it took this round's copy, or an earlier one whose SACK was lost) -/
+def Taken (P : Params) (s : St) : Bool := sna32LT (preSack P s).snd.cumAck (preSack P s).rcv.pq.cum
+
+/-- `Taken` in each of the next `n` rounds that start with something outstanding -/
+def TakenN (P : Params) : Nat → St → Bool
+  | 0, _ => true
+  | n+1, s => (outstanding s == 0 || Taken P s) && TakenN P n (healed P s)
 
 /-- the receiver does not refuse the lowest outstanding chunk for want of buffer: it has credit, or something above
 the cumulative point is held (the "fills a gap below the highest TSN" exception of `acceptPayloadData`) -/
